@@ -2934,7 +2934,8 @@ bool SGXMLScanner::normalizeAttValue( const   XMLAttDef* const    attDef
             nextCh = *srcPtr;
 
             // Do we have an escaped character ?
-            if (nextCh == 0xFFFF)
+            const bool escaped = (nextCh == 0xFFFF);
+            if (escaped)
             {
                 nextCh = *++srcPtr;
             }
@@ -2945,9 +2946,16 @@ bool SGXMLScanner::normalizeAttValue( const   XMLAttDef* const    attDef
                 retVal = false;
             }
 
+            //  A character that came from a character reference is white
+            //  space to be collapsed only if it is a space (XML 1.0, 3.3.3:
+            //  referenced characters are appended as they are, then #x20
+            //  characters are trimmed and collapsed)
+            const bool isWS = (!escaped || nextCh == chSpace) &&
+                              fReaderMgr.getCurrentReader()->isWhitespace(nextCh);
+
             if (curState == InWhitespace)
             {
-                if (!fReaderMgr.getCurrentReader()->isWhitespace(nextCh))
+                if (!isWS)
                 {
                     if (firstNonWS)
                         toFill.append(chSpace);
@@ -2962,7 +2970,7 @@ bool SGXMLScanner::normalizeAttValue( const   XMLAttDef* const    attDef
             }
             else if (curState == InContent)
             {
-                if (fReaderMgr.getCurrentReader()->isWhitespace(nextCh))
+                if (isWS)
                 {
                     curState = InWhitespace;
                     srcPtr++;
